@@ -49,6 +49,7 @@ def psm_frame(
     informative_sign=1.0,
     id_prefix="",
     twin=False,
+    colliding_keys=False,
 ):
     """Build a PSM table.  `mults` = list of spectrum multiplicities (rows per spectrum).
 
@@ -74,8 +75,19 @@ def psm_frame(
             fname[b] = fname[a]
             if key_arity == 4:
                 rt[b] = rt[a]  # 3 first columns equal, only ExpMass differs
-    if key_arity == 1:
-        pass
+    if colliding_keys and key_arity in (2, 3) and nspec >= 3:
+        # pairs of distinct spectra whose key values read the same when written one after the other without a separator:
+        # (scan 7, mass 1234.5) and (scan 71, mass 234.5)
+        for a in range(0, nspec - 2, 4):
+            b = a + 2
+            d = 1 + (a // 4) % 9
+            rem = float(np.round(100.0 + rng.random() * 899.0, 4))
+            big = d * 1000.0 + rem
+            if repr(big) == f"{d}{rem!r}":
+                expmass[a], expmass[b] = big, rem
+                scan[b] = scan[a] * 10 + d
+                if key_arity == 3:
+                    fname[b] = fname[a]
     is_target = rng.random(n) < 0.5
     # guarantee both classes
     if n >= 2:
